@@ -1171,6 +1171,7 @@ static tjhandle _tjInitCompress(tjinstance *this)
 
   if (setjmp(this->jerr.setjmp_buffer)) {
     /* If we get here, the JPEG code has signaled an error. */
+    jpeg_destroy_compress(&this->cinfo);
     free(this);
     return NULL;
   }
@@ -1826,6 +1827,8 @@ static tjhandle _tjInitDecompress(tjinstance *this)
 
   if (setjmp(this->jerr.setjmp_buffer)) {
     /* If we get here, the JPEG code has signaled an error. */
+    jpeg_destroy_decompress(&this->dinfo);
+    if (this->init & COMPRESS) jpeg_destroy_compress(&this->cinfo);
     free(this);
     return NULL;
   }
